@@ -199,7 +199,12 @@ def render_flow(p):
     decls = "".join(t.decl() + "\n" for t in tys.values() if t.decl())
     body = []
     for ty in p["results"]:
-        body.append("\tvar r%d %s = %s\n" % (ty, tys[ty].go(), tys[ty].mk(SENTINEL)))
+        if st.get("resaddr"):
+            # the Results pointer is spelled &rbN[<expression with a side effect>]: the operand of & is evaluated with the
+            # other arguments, in order, before any task starts - not when the result is stored
+            body.append("\tvar rb%d [2]%s\n\trb%d[0] = %s\n" % (ty, tys[ty].go(), ty, tys[ty].mk(SENTINEL)))
+        else:
+            body.append("\tvar r%d %s = %s\n" % (ty, tys[ty].go(), tys[ty].mk(SENTINEL)))
     for ident in st.get("shadow", []):
         # user identifiers named like the ones generated code introduces; used below in expressions
         body.append("\t%s := x\n\t_ = %s\n" % (ident, ident))
@@ -223,6 +228,8 @@ def render_flow(p):
         return "\t\tcff.Params(%s),\n" % ", ".join(w.arg(tys[ty].mk("h.ParamTok(%d)" % ty)) for ty in p["params"])
 
     def opt_results():
+        if st.get("resaddr"):
+            return "\t\tcff.Results(%s),\n" % ", ".join("&rb%d[%s]" % (ty, w.arg("0")) for ty in p["results"])
         return "\t\tcff.Results(%s),\n" % ", ".join(w.arg("&r%d" % ty) for ty in p["results"])
 
     def opt_conc():
@@ -354,7 +361,7 @@ def render_flow(p):
     if st.get("uservars"):
         body.append("\tstartTime, emitter := h.Epoch, h.UserEmitter\n\t_, _ = startTime, emitter\n")
     src = "func %s(x *h.X) {\n" % name + "".join(body) + pre + dtext
-    src += "\tx.Ret(err%s)\n}\n" % "".join(", " + tys[ty].acc("r%d" % ty) for ty in p["results"])
+    src += "\tx.Ret(err%s)\n}\n" % "".join(", " + tys[ty].acc(("rb%d[0]" if st.get("resaddr") else "r%d") % ty) for ty in p["results"])
     decls += "".join(xdecls)
     # the context argument is the first expression in source order
     # (numbering: it was reserved as number 1 below)
@@ -535,6 +542,13 @@ def render_program(p):
     else:
         decls, src, nargs = render_parallel(p)
     p["nargsexpr"] = nargs
+    if p["style"].get("genericfn"):
+        # the directive sits in a generic function (type parameters of the enclosing function are in scope of the
+        # generated closure); the registered entry point instantiates it
+        head = "func %s(x *h.X) {\n" % p["name"]
+        if src.startswith(head):
+            g = p["name"][0].lower() + p["name"][1:] + "Gen"
+            src = head + "\t%s[int, string](x)\n}\n\nfunc %s[Z any, Y comparable](x *h.X) {\n" % (g, g) + src[len(head):]
     return decls, src
 
 
@@ -556,6 +570,10 @@ def header(pkg, fstyle):
         # a project-local package whose import path ENDS in the path of a package the file also imports
         # (vgen/lib/context declares package context), imported under another name
         extpath = "vgen/lib/context"
+    if fstyle.get("linedir"):
+        # a //line directive ahead of the package clause (machine-written sources carry them): positions reported for
+        # this file name another file, the file itself does not move
+        cons += "\n\n//line templates/%s_tmpl.go:100" % pkg
     return ("%s\n\npackage %s\n\nimport (\n\t%s\"context\"\n%s\n\t%s\"go.uber.org/cff\"\n\t%s\"%s\"\n\n\t\"verif/harness/pkg/h\"\n)\n\n"
             "var _ = %s.Background\nvar _ %s.E1\n%s\n" % (cons, pkg, (xa + " ") if xa else "", dupimp, (ca + " ") if ca else "",
                                                          extalias, extpath, xa or "context", extname, dupuse))
@@ -582,7 +600,7 @@ SURROUND = [
 
 
 def gen_fstyle(rng):
-    return dict(cff=rng.choice(["", "", "c", "cff2"]), context=rng.choice(["", "", "stdctx"]),
+    return dict(linedir=rng.random() < 0.15, cff=rng.choice(["", "", "c", "cff2"]), context=rng.choice(["", "", "stdctx"]),
                 ext=rng.choice(["", "", "time", "debug", "multierr", "v2:debug", "v2:time", "libctx"]), dup=rng.choice(["", "", "context"]),
                 # (the module is on go 1.22: a go1.2x term pins the file - and the generated file, which inherits the
                 # constraint - to a language version with per-loop loop variables)
@@ -758,6 +776,8 @@ def gen_flow(rng, name, max_tasks=4, features=None, plain=False):
                         altspell={str(u["id"]): rng.random() < 0.5 for u in units}, uservars=rng.random() < 0.3,
                         latemut=rng.random() < 0.35,
                         emitshape=emitshape, emittree=emittree))
+    p["style"]["genericfn"] = rng.random() < 0.2
+    p["style"]["resaddr"] = rng.random() < 0.35
     for u in units:
         if u["kind"] == "task" and u["fb"]:
             u["fbnil"] = [1 if p["style"]["tkind"][str(ty)] in ("ptr", "slice", "map", "any", "bytes") and rng.random() < 0.5 else 0
@@ -806,6 +826,7 @@ def gen_parallel(rng, name):
         if u["kind"] in ("ptask", "send", "mend"):
             style["spell"][str(u["id"])] = rng.choice(["lit", "lit", "rawlit", "rawlit", "named"])
     style["sharedfn"] = rng.random() < 0.4
+    style["genericfn"] = rng.random() < 0.2
     ptasks = [u["id"] for u in units if u["kind"] == "ptask"]
     if len(ptasks) >= 2 and rng.random() < 0.4:
         # cff.Tasks(f, g) cannot carry Instrument options
